@@ -100,4 +100,18 @@ def soloCall (p : BreakerCfg) (sh : BreakerSt) (t t' : Int) (ok : Bool) : Breake
       let e := Pc.step p d.1 d.2.1 t' ok
       if ok then ((Pc.step p e.1 e.2.1 t' ok).1, .ok) else (e.1, .failed)
 
+/-! the failure counter updated by a load followed by a store of the loaded value + 1 – what
+  `tie_breaker_updates_atomic` excludes.  Only used to show why (`Props.C18.nonatomic_increment_loses_failures`). -/
+namespace Rmw
+inductive Ev | load (i : Nat) | store (i : Nat)
+structure St where
+  failures : Nat
+  regs : List Nat          -- what each caller loaded
+  recorded : Nat           -- completed `fail()` calls
+def step (s : St) : Ev → St
+  | .load i => { s with regs := s.regs.set i s.failures }
+  | .store i => { s with failures := s.regs.getD i 0 + 1, recorded := s.recorded + 1 }
+def run (k : Nat) (evs : List Ev) : St := evs.foldl step ⟨0, List.replicate k 0, 0⟩
+end Rmw
+
 end Rpcx
